@@ -217,7 +217,11 @@ def block_chain_labels(rec):
         steps += 1
         if nodes[cur][0] == "Output":
             return chain
-        chain.append(label(cur))
+        lab = label(cur)
+        # operators implemented as Guppy functions (float // and %, int ** and /, ...) show up as calls of
+        # dunder methods after both operands; the source-order oracle has no types, so they are not compared
+        if not (lab.startswith("call:__") and lab.endswith("__")):
+            chain.append(lab)
     return chain + ["NO-OUTPUT"]
 
 
@@ -430,7 +434,11 @@ def run(ctx):
                     stat["SOURCE-ORDER-DIFFERS"] += 1
                     report("src", "effects:" + key, "counterexample",
                            "the order-edge chain of the block does not list the side effects in Python's evaluation order, each once",
-                           {"program": key, "python_evaluation_order": want, "hugr_chain": got, "replay": REPLAY_HUGR})
+                           {"program": key, "python_evaluation_order": want, "hugr_chain": got,
+                            "first_difference": next(({"position": i, "python": a, "hugr": b} for i, (a, b) in enumerate(zip(want, got)) if a != b),
+                                                     {"position": min(len(want), len(got)), "python": "<end>" if len(want) <= len(got) else want[len(got)],
+                                                      "hugr": "<end>" if len(got) <= len(want) else got[len(want)]}),
+                            "replay": REPLAY_HUGR})
             elif got is None:
                 stat["straight-not-single-block"] += 1
 
